@@ -24,7 +24,10 @@ class _BaseMMC(MahalanobisMixin):
                     ' version 0.6.3 and will be removed in 0.7.0'
                     '', FutureWarning)
       tol = convergence_threshold
-    self.convergence_threshold = 'deprecated'  # Avoid errors
+      convergence_threshold = 'deprecated'
+    # (the object that was passed is kept when it is the sentinel: `clone`
+    # requires the constructor to store its arguments unmodified)
+    self.convergence_threshold = convergence_threshold  # Avoid errors
     self.max_iter = max_iter
     self.max_proj = max_proj
     self.tol = tol
@@ -572,10 +575,11 @@ class MMC_Supervised(_BaseMMC, TransformerMixin):
                     ' version 0.6.3 and will be removed in 0.7.0'
                     '', FutureWarning)
       self.n_constraints = num_constraints
+      num_constraints = 'deprecated'
     else:
       self.n_constraints = n_constraints
     # Avoid test get_params from failing (all params passed sholud be set)
-    self.num_constraints = 'deprecated'
+    self.num_constraints = num_constraints
 
   def fit(self, X, y):
     """Create constraints from labels and learn the MMC model.
